@@ -138,9 +138,12 @@ def lit(fmt, which, sign):
 SHAPES = [("0.03", "-0.03", "0.05"), ("-0.04", "0.02", "-0.07"), ("0.001", "-0.0001", "0.00012"), ("12.5", "-100.0", "1234.5"), ("1e-05", "-1e-05", "2e-05"),
           ("0.1", "-0.1", "0.30000000000000004"), ("1e+16", "-1e+16", "1e+16"), ("-0.05", "0.0", "0.02"), ("7.0", "-0.009", "-0.05"),
           # integer-valued exponents and barriers of either sign (generators like to special-case small integers)
-          ("2.0e-10", "-1.0", "2.0"), ("1.0", "-2.0", "-3.0"), ("4.0", "-3.0", "1.0"), ("1.5e-9", "1.0", "-2.0"), ("2.0", "3.0", "3.0")]
+          ("2.0e-10", "-1.0", "2.0"), ("1.0", "-2.0", "-3.0"), ("4.0", "-3.0", "1.0"), ("1.5e-9", "1.0", "-2.0"), ("2.0", "3.0", "3.0"),
+          # unit and zero coefficients together (every factor of the law is one a generator may want to leave out)
+          ("1.0", "0.0", "0.0"), ("1.0", "1.0", "0.0"), ("1.0", "0.0", "1.0"), ("-1.0", "0.0", "0.0"), ("1.0", "1.0", "1.0")]
 EXTREME = SHAPES + [("1e+20", "5e-324", "3.0"), ("1.7976931348623157e+308", "-0.5", "1e-300"), ("3.0", "2.0", "-1.0"), ("-5e-324", "1e+20", "-1e+20"), ("1E-9", "-2.50E+00", "+4.0")]
-LEEDS_EXTREME = [("2.00E-10", "-1.00", "2.0"), ("1.00E+00", "-2.00", "-3.0"), ("4.00E+00", "-3.00", "1.0"), ("1.50E-09", "1.00", "-2.0"), ("0.03", "-0.03", "0.05"), ("-0.04", "0.02", "-0.07"), ("0.001", "-0.0001", "0.00012"), ("12.5", "-100.0", "1234.5"), ("1E-05", "-1E-05", "2E-05"), ("-0.05", "0.0", "0.02"), ("7.0", "-0.009", "-0.05"), ("1.0E+20", "5.0E-324", "3.0"), ("3.0", "2.0", "-1.0"), ("-5E-324", "1.0E+20", "-1.0E+20")]
+LEEDS_EXTREME = [("2.00E-10", "-1.00", "2.0"), ("1.00E+00", "-2.00", "-3.0"), ("4.00E+00", "-3.00", "1.0"), ("1.50E-09", "1.00", "-2.0"), ("0.03", "-0.03", "0.05"), ("-0.04", "0.02", "-0.07"), ("0.001", "-0.0001", "0.00012"), ("12.5", "-100.0", "1234.5"), ("1E-05", "-1E-05", "2E-05"), ("-0.05", "0.0", "0.02"), ("7.0", "-0.009", "-0.05"), ("1.0E+20", "5.0E-324", "3.0"), ("3.0", "2.0", "-1.0"), ("-5E-324", "1.0E+20", "-1.0E+20"),
+                 ("1.00E+00", "0.00", "0.0"), ("1.00E+00", "1.00", "0.0"), ("1.00E+00", "0.00", "1.0"), ("1.00E+00", "1.00", "1.0")]
 
 SPECIES_VARIANTS = ["C", "O", "N", "H", "OH", "C2", "HCO", "NO"]
 WINDOWS = [("10", "800"), ("0", "0"), ("-9999", "9999"), ("50", "-1"), ("-1", "300"), ("100", "100")]
